@@ -47,7 +47,14 @@ def run(t):
     return out
 
 
-res = []
+prev = []
+if "--rerun-exit2" in sys.argv:
+    # only what ended in a machinery error (exit 2, e.g. the Lean build was being changed underneath) in the previous run
+    prev = json.loads((VERIF / ".work" / "regress.json").read_text())
+    again = {(o["kind"], o["patch"]) for o in prev if o["exit"] not in (0, 1)}
+    tasks = [t for t in tasks if (t[0], t[1]) in again]
+    prev = [o for o in prev if (o["kind"], o["patch"]) not in again]
+res = list(prev)
 with cf.ThreadPoolExecutor(jobs) as ex:
     for out in ex.map(run, tasks):
         for o in out:
